@@ -811,7 +811,18 @@ def rule_mixed_reduction(repo: Repo, rep: Report, classes: List[ClassInfo]) -> i
             by_base: Dict[str, Dict[bool, list]] = {}
             for c, (b, hd) in reds:
                 by_base.setdefault(b, {True: [], False: []})[hd].append(c)
+            # a name bound to a reduction along explicit axes holds one value per word: the name itself is a per-word quantity
+            rowdefs = {}
+            for s_ in ast.walk(fi.node):
+                if isinstance(s_, ast.Assign) and len(s_.targets) == 1 and isinstance(s_.targets[0], ast.Name):
+                    for y_ in ast.walk(s_.value):
+                        r_ = reduction(y_)
+                        if r_ is not None and r_[1]:
+                            rowdefs.setdefault(s_.targets[0].id, y_)
             for b, d in by_base.items():
+                if not d[True] and d[False] and b in rowdefs:
+                    d[True].append(rowdefs[b])
+                    d["name"] = True
                 if not (d[True] and d[False]):
                     continue
                 # both kinds on the same tensor: do they meet in one arithmetic expression (directly or through locals)?
@@ -825,6 +836,8 @@ def rule_mixed_reduction(repo: Repo, rep: Report, classes: List[ClassInfo]) -> i
                             out.add("row")
                         if any(x is c for c in d[False]):
                             out.add("full")
+                        if d.get("name") and isinstance(x, ast.Name) and x.id == b and isinstance(x.ctx, ast.Load) and not any(isinstance(c, ast.Call) and (c.func.value if isinstance(c.func, ast.Attribute) else (c.args[0] if c.args else None)) is x for c in d[False]):
+                            out.add("row")
                         if isinstance(x, ast.Name) and x.id in defs and x.id not in seen and depth < 3 and x.id != b:
                             out |= kinds(defs[x.id], depth + 1, seen | {x.id})
                     return out
